@@ -12,15 +12,37 @@ import (
 	"strings"
 )
 
+// Tags: everything after the single separating blank up to the end of the line belongs to the tag
+// (uri, uripost, raw: interior runs of blanks and tabs and a leading blank are kept verbatim; a trailing
+// blank cannot be written, the line is trimmed); json: any string.
 var (
-	afTags    = []string{"", "", "t1", "t 2", "tag-3", "a b c", "zz"}
-	afMethods = []string{"GET", "POST", "PUT", "DELETE", "PATCH"}
-	afHdrKeys = []string{"A", "a", "X-B", "x-b", "Accept", "User-Agent", "Cookie", "X-Req-Id", "Host", "host"}
-	afSegs    = []string{"a", "buy", "p%2Fq", "x.y", "~u", "1", "index.html", "-_"}
-	afQuery   = []string{"x=1", "y=2", "q=%20z", "rt=0", "station_to=7", "e=", "k=a%2Bb"}
-	afValCh   = "abcXYZ019 ;=,/.*-_:]["
-	afTextCh  = []rune("abc XYZ019\n\r\t\"\\{}[]:,<>&'\u00fc\u044f\u4e16\U0001F600\x00\x1f")
+	afTags     = []string{"", "", "t1", "t 2", "tag-3", "a b c", "zz", "case  #12", "a\tb", "x -  y", " lead", "\tt", "t1 \t t1", "#1 [x]: y"}
+	afJSONTags = []string{"trail ", " both ", "a\nb", "\u00fc \u4e16", "\"q\""}
+	afMethods  = []string{"GET", "POST", "PUT", "DELETE", "PATCH", "OPTIONS", "HEAD", "PURGE"}
+	afHdrKeys  = []string{"A", "a", "X-B", "x-b", "Accept", "User-Agent", "Cookie", "X-Req-Id", "Host", "host"}
+	afSegs     = []string{"a", "buy", "p%2Fq", "x.y", "~u", "1", "index.html", "-_", "a;v=1", "(b)", "c,d", "e@f:g", "h!*'", "%7Bid%7D", "%25", "a+b", "$"}
+	afQuery    = []string{"x=1", "y=2", "q=%20z", "rt=0", "station_to=7", "e=", "k=a%2Bb", "j=%7B%22k%22%3A1%7D", "s=a+b", "u=/p/q?r", "m=1;n=2", "noval", "p=%25", "z=[1]"}
+	afValCh    = "abcXYZ019 ;=,/.*-_:]["
+	afTextCh   = []rune("abc XYZ019\n\r\t\"\\{}[]:,<>&'\u00fc\u044f\u4e16\U0001F600\x00\x1f")
+	// lengths around the buffer sizes of the readers (bufio.Reader 4096, bufio.Scanner start 4096 / limit 65536)
+	afEdges = []int{4094, 4095, 4096, 4097, 4098, 8191, 8192, 8193, 65535, 65536, 65537}
 )
+
+// a long run of URL-safe text: around 4096, 5 000, 8 KiB, or `big` (uri: below the 64 KiB token limit of
+// bufio.Scanner -- a longer line is malformed input, C13 --, the other formats: 70 000)
+func afLongLen(r *rand.Rand, big int) int {
+	switch r.Intn(5) {
+	case 0:
+		return 4000 + r.Intn(200)
+	case 1:
+		return 5000
+	case 2:
+		return 8100 + r.Intn(200)
+	case 3:
+		return big
+	}
+	return 200 + r.Intn(3000)
+}
 
 func afRandURI(r *rand.Rand) string {
 	var b strings.Builder
@@ -43,6 +65,13 @@ func afRandURI(r *rand.Rand) string {
 	return b.String()
 }
 
+func afBig(format string) int {
+	if format == "uri" {
+		return 50000
+	}
+	return 70000
+}
+
 func afRandVal(r *rand.Rand) string {
 	n := r.Intn(12)
 	var b strings.Builder
@@ -63,6 +92,9 @@ func afRandBody(r *rand.Rand, maxBody int, text bool) []byte {
 		n = 1 + r.Intn(2000)
 	default:
 		n = 1 + r.Intn(maxBody)
+		if e := afEdges[r.Intn(len(afEdges))]; e <= maxBody+1 {
+			n = e // exactly at / one off the readers' buffer sizes
+		}
 	}
 	if text {
 		var b strings.Builder
@@ -82,26 +114,50 @@ func afRandBody(r *rand.Rand, maxBody int, text bool) []byte {
 	return out
 }
 
-func afRandEntry(r *rand.Rand, format string, maxBody int) *afEntry {
+func afRandEntry(r *rand.Rand, format string, maxBody int, long bool) *afEntry {
 	e := &afEntry{Method: "GET", URI: afRandURI(r), Headers: [][]string{}, Tag: afTags[r.Intn(len(afTags))]}
+	if format == "json" && r.Intn(4) == 0 {
+		e.Tag = afJSONTags[r.Intn(len(afJSONTags))]
+	}
+	if long && r.Intn(3) == 0 { // long request line: long query value
+		sep := "?"
+		if strings.Contains(e.URI, "?") {
+			sep = "&"
+		}
+		e.URI += sep + "ids=" + afLong(afLongLen(r, afBig(format)))
+	}
+	if long && r.Intn(6) == 0 && len(e.URI) < 10000 { // long tag
+		e.Tag = "long tag  " + afLong(afLongLen(r, 9000))
+	}
 	switch format {
 	case "uripost":
 		e.Method = "POST"
 		e.body = afRandBody(r, maxBody, false)
 	case "raw", "json":
 		e.Method = afMethods[r.Intn(len(afMethods))]
-		e.Host = []string{"h1", "h2:8080", "example.com"}[r.Intn(3)]
-		if e.Method != "GET" && e.Method != "DELETE" {
+		e.Host = []string{"h1", "h2:8080", "example.com", "[::1]:8080"}[r.Intn(4)]
+		if e.Method != "GET" && e.Method != "DELETE" && e.Method != "HEAD" && e.Method != "OPTIONS" {
 			e.body = afRandBody(r, maxBody, format == "json")
 		}
 		used := map[string]bool{}
-		for i := r.Intn(4); i > 0; i-- {
+		nh := r.Intn(4)
+		if long && r.Intn(8) == 0 {
+			nh = 40 // many headers
+		}
+		for i := 0; i < nh; i++ {
 			k := afHdrKeys[r.Intn(len(afHdrKeys)-2)] // no Host among the entry's own headers
+			if nh > 8 {
+				k = fmt.Sprintf("X-H-%d", i)
+			}
 			if used[strings.ToLower(k)] {
 				continue
 			}
 			used[strings.ToLower(k)] = true
-			e.Headers = append(e.Headers, []string{k, afRandVal(r)})
+			v := afRandVal(r)
+			if long && r.Intn(6) == 0 {
+				v = "v: [" + afLong(afLongLen(r, 70000)) + "]"
+			}
+			e.Headers = append(e.Headers, []string{k, v})
 		}
 		if format == "raw" && len(e.body) > 0 {
 			e.Headers = append(e.Headers, []string{"Content-Length", strconv.Itoa(len(e.body))})
@@ -124,15 +180,25 @@ func afRandomCases(seed int64, n int, mode string, maxEntries, maxBody int) []*a
 			if ne > 60 {
 				mb = maxBody / 8 // keep a single file within tens of megabytes
 			}
+			long := ne <= 60 // long lines / values / many headers in the files with few entries
 			c := &afCase{Fmt: format, Src: fmt.Sprintf("random:%d:%d", seed, k)}
 			for len(c.Items) == 0 || ne > 0 {
 				switch x := r.Intn(10); {
 				case x == 0:
 					c.Items = append(c.Items, afItem{K: "B"})
 				case x <= 2 && (format == "uri" || format == "uripost"):
-					c.Items = append(c.Items, afItem{K: "H", Key: afHdrKeys[r.Intn(len(afHdrKeys))], Val: afRandVal(r)})
+					v := afRandVal(r)
+					if long && r.Intn(5) == 0 {
+						v = "v: [" + afLong(afLongLen(r, afBig(format))) + "]"
+					}
+					c.Items = append(c.Items, afItem{K: "H", Key: afHdrKeys[r.Intn(len(afHdrKeys))], Val: v})
+					if long && r.Intn(12) == 0 { // many header lines in a row
+						for i := 0; i < 40; i++ {
+							c.Items = append(c.Items, afItem{K: "H", Key: fmt.Sprintf("X-H-%d", i), Val: afRandVal(r)})
+						}
+					}
 				default:
-					c.Items = append(c.Items, afItem{K: "E", E: afRandEntry(r, format, mb)})
+					c.Items = append(c.Items, afItem{K: "E", E: afRandEntry(r, format, mb, long)})
 					ne--
 				}
 			}
